@@ -43,5 +43,6 @@ int mode_codec(int argc, char **argv);
 int mode_sim(int argc, char **argv);
 int mode_file(int argc, char **argv);
 int mode_util(int argc, char **argv);
+int mode_chars(int argc, char **argv);
 
 #endif
